@@ -219,7 +219,25 @@ func (l *leecher) runGrow() {
 	}
 	mine := g.fsets[l.idx]
 	isFeeder := l.idx == g.feeder
-	classes := [][]int{g.feed, g.feed, mine, mine, g.never, held, all}
+	// round 3: the peer sends its OWN allowed-fast messages (they grant rain downloads from the peer - the session is downloading,
+	// so it records them - and grant the peer nothing) for pieces the client holds or will hold and did not grant to this peer
+	var spoof []int
+	if r3on {
+		for _, p := range l.rng.Perm(s.tor.NumPieces) {
+			if !contains(mine, p) && !contains(g.never, p) && len(spoof) < 4 {
+				spoof = append(spoof, p)
+			}
+		}
+	}
+	peerAF := func() {
+		if !l.fast || !r3on { // without the fast extension the message is a protocol error
+			return
+		}
+		for _, p := range spoof {
+			l.send("PeerAF", vh.Msg{ID: vh.MsgAllowedFast, Index: uint32(p)})
+		}
+	}
+	classes := [][]int{g.feed, g.feed, mine, mine, g.never, held, all, spoof, spoof}
 	nreq := max(s.nreq/4, 20)
 	waitDone := func() {
 		select {
@@ -238,6 +256,9 @@ func (l *leecher) runGrow() {
 		return
 	}
 	l.idle(3*time.Millisecond, 60*time.Millisecond) // let the allowed-fast messages arrive
+	if r3on && l.rng.Intn(3) > 0 {
+		peerAF()
+	}
 	// round 1: the client still misses the pieces
 	if isFeeder || !g.late {
 		l.askRound(gen, nreq, classes)
@@ -249,6 +270,7 @@ func (l *leecher) runGrow() {
 		l.send("Other", vh.Msg{ID: vh.MsgUnchoke})
 	}
 	waitDone()
+	peerAF()
 	// round 2: the client has obtained them; this connection is as old as before
 	l.askRound(gen, nreq, classes)
 	if s.sc.Unchoked > 0 && l.rng.Intn(2) == 0 && l.alive() {
@@ -266,6 +288,7 @@ func (l *leecher) runGrow() {
 	}
 	if l.connect() {
 		l.idle(3*time.Millisecond, 60*time.Millisecond)
+		peerAF()
 		l.askRound(gen, nreq/2, classes)
 		l.idle(40*time.Millisecond, 1000*time.Millisecond)
 		l.hangup()
